@@ -162,5 +162,9 @@ Record cfg := mkCfg {
   fix14 : bool;           (* addSpecifiedData skips fetched rows that disagree with the row on a shared binding *)
   fix15 : bool;           (* updateTimeBoundsForRow guards the missing cell and uses Before for the upper bound *)
   fixoid : bool;          (* tripleToRow: ID alias on a literal object skips the triple (NULL if optional) instead of failing *)
-  fixsb : bool            (* a fully specified clause / lookup applies the time bounds to its own temporal predicate *)
+  fixsb : bool;           (* a fully specified clause / lookup applies the time bounds to its own temporal predicate *)
+  fixzone : bool          (* validBinding / getBoundValueForComponent compare with sameValue (instants), not DeepEqual *)
 }.
+
+(* the comparison of two cells bound to the same name inside one clause *)
+Definition same_value (e : cfg) (a b : cell) : bool := if fixzone e then cell_equiv a b else cell_eqb a b.
